@@ -21,7 +21,9 @@
 (*   hmeta    harness-implemented metatype counting with mpt_refcount_*     *)
 (*   reply    mpt_reply_deferrable context (metatype + deferred handles)    *)
 (*   rawdata  mpt_rawdata_create (with one stage of values inside)          *)
-(*   stream   mpt_stream_input on a socket pair                             *)
+(*   stream   mpt_stream_input on a socket pair (tlen = 0) or on a regular  *)
+(*            file (tlen = 1); the notifier is one more holder: defer[o] is *)
+(*            its slot for o (mpt_notify_add accepted / refused, clear, fini) *)
 (*   outlocal, outremote   mpt_output_local / mpt_output_remote             *)
 (*   iterfile mpt_iterator_filename (shareable and clonable)                *)
 (*   geninfo  mpt_meta_geninfo  (not shareable: addref answers 0)           *)
@@ -339,16 +341,24 @@ ArrDrop ==
   /\ UNCHANGED <<holds, extra, defer, made>> /\ SetInner(inner)
   /\ Answer("arrdrop", [x |-> 0], "ok", m.gone, -1)
 
-(* copy-on-write detach of a buffer (buffer detach(), mpt_array_reserve): a shared buffer is left to *)
-(* the other holders and the handle gets a buffer of its own -- a copy, so what the shared one holds *)
-(* itself is retained once more for the copy; a unique buffer stays                                  *)
+(* a handle leaves (or keeps) its buffer through an array operation that needs a buffer of its own:   *)
+(* copy-on-write detach (buffer detach(), mpt_array_reserve with the content type of the buffer,      *)
+(* mpt_array_slice / insert / append, which detach before they write): a shared buffer is left to the *)
+(* other holders and the handle gets a buffer of its own -- a copy, so what the shared one holds       *)
+(* itself is retained once more for the copy; a unique buffer stays.                                   *)
+(* via = "reserveother": mpt_array_reserve with ANOTHER content type -- nothing is copied: the handle  *)
+(* leaves a shared buffer for a new empty one; a unique buffer stays and its content (the reference it *)
+(* holds) is released.  In every case the handle's reference on the buffer it leaves is given back     *)
+(* exactly once.                                                                                       *)
+UnshareVias == {"vptr", "reserve", "reserveother", "slice", "insert", "append"}
 Unshare(h, via) ==
-  LET o == holds[h]  arg == [h |-> h, via |-> via] IN
-  /\ kind = "buf" /\ o # 0 /\ Frame
+  LET o == holds[h]  arg == [h |-> h, via |-> via]  keep == via # "reserveother" IN
+  /\ kind = "buf" /\ o # 0 /\ Frame /\ via \in UnshareVias
+  /\ (via = "append" => tlen = 0)                   \* raw bytes are only appended to an untyped buffer
   /\ IF cnt[o] > 1
      THEN /\ made < NObj
           /\ LET n  == made + 1
-                 t  == inner[o]
+                 t  == IF keep THEN inner[o] ELSE 0
                  m1 == IF t # 0 /\ CanRaise(M0, t) THEN MRaise(M0, t) ELSE M0
                  m  == MLower(m1, o) IN
                /\ made' = n /\ holds' = [holds EXCEPT ![h] = n]
@@ -357,7 +367,43 @@ Unshare(h, via) ==
                /\ UNCHANGED <<copyh, hascopy, extra, defer, snd>>
                /\ SetInner([inner EXCEPT ![n] = IF t # 0 /\ CanRaise(M0, t) THEN t ELSE 0])
           /\ Answer("unshare", arg, "ok", <<>>, -1)
-     ELSE Same /\ KeepOrigin /\ Answer("unshare", arg, "ok", <<>>, -1)
+     ELSE IF keep \/ inner[o] = 0
+     THEN Same /\ KeepOrigin /\ Answer("unshare", arg, "ok", <<>>, -1)
+     ELSE LET m == MLower(M0, inner[o]) IN
+          /\ Tier1Same /\ KeepOrigin /\ SetM(m) /\ SetInner([inner EXCEPT ![o] = 0])
+          /\ Answer("unshare", arg, "ok", m.gone, -1)
+
+(* stream inputs: the notifier (mpt_notify_add) is one more holder.  An accepted add takes over the    *)
+(* handle's reference (defer[o] = 1: the slot of the notifier) until clear / fini; a refused add --    *)
+(* the descriptor is not one the kernel lets the notifier poll (tlen = 1: inputs of this behaviour are  *)
+(* on regular files), or the input is in its slot already -- changes nothing: the notifier holds none.  *)
+NotifyAdd(h) ==
+  LET o == holds[h] IN
+  /\ kind = "stream" /\ o # 0 /\ FrameO
+  /\ IF tlen = 0 /\ defer[o] = 0
+     THEN /\ holds' = [holds EXCEPT ![h] = 0] /\ defer' = [defer EXCEPT ![o] = 1]
+          /\ UNCHANGED <<copyh, hascopy, extra, made, cnt, alive, snd, inner>>
+          /\ Answer("nadd", [h |-> h], "ok", <<>>, -1)
+     ELSE Same /\ Answer("nadd", [h |-> h], "refused", <<>>, -1)
+(* mpt_notify_clear for the descriptor of input o: the notifier gives its reference back (if it has one) *)
+NotifyClear(o) ==
+  LET m == MLower(M0, o) IN
+  /\ kind = "stream" /\ o <= made /\ alive[o] /\ FrameO
+  /\ IF defer[o] > 0
+     THEN /\ defer' = [defer EXCEPT ![o] = 0] /\ SetM(m)
+          /\ UNCHANGED <<holds, copyh, hascopy, extra, made>> /\ SetInner(inner)
+          \* the answer is that of the kernel's deregistration (fails when the input went with the slot): free
+          /\ Answer("nclear", [o |-> o], "any", m.gone, -1)
+     ELSE Same /\ Answer("nclear", [o |-> o], "any", <<>>, -1)
+(* mpt_notify_fini: every slot is given back *)
+RECURSIVE FiniFold(_, _)
+FiniFold(o, m) == IF o > NObj THEN m ELSE FiniFold(o + 1, IF defer[o] > 0 THEN MLower(m, o) ELSE m)
+NotifyFini ==
+  LET m == FiniFold(1, M0) IN
+  /\ kind = "stream" /\ FrameO
+  /\ defer' = [o \in Objs |-> 0] /\ SetM(m)
+  /\ UNCHANGED <<holds, copyh, hascopy, extra, made>> /\ SetInner(inner)
+  /\ Answer("nfini", [x |-> 0], "ok", m.gone, -1)
 
 (* metatype clone(): a new object for the empty handle g, or refused *)
 Clone(h, g) ==
@@ -418,7 +464,7 @@ InitKind(k, tl) ==
   /\ snd = [o \in Objs |-> TRUE] /\ tries = [o \in Objs |-> 0]
   /\ obs = [a |-> "init", arg |-> [kind |-> k, nh |-> NH, nobj |-> NObj, max |-> Max],
             exp |-> TeardownExp(k, [o \in Objs |-> FALSE], [o \in Objs |-> IF k = "bare" /\ o = 1 THEN 1 ELSE 0])]
-Init == \E k \in Kinds : \E tl \in (IF k = "metanew" THEN TextLens ELSE IF k = "buf" THEN {0, 8} ELSE {0}) : InitKind(k, tl)
+Init == \E k \in Kinds : \E tl \in (IF k = "metanew" THEN TextLens ELSE IF k = "buf" THEN {0, 8} ELSE IF k = "stream" THEN {0, 1} ELSE {0}) : InitKind(k, tl)
 
 PokeVals(o) == {Max - 1, Max} \cup (IF HRefs(o) + defer[o] + NestRefs(o) >= 1 THEN {HRefs(o) + defer[o] + NestRefs(o)} ELSE {})
 
@@ -428,7 +474,10 @@ Next ==
   \/ \E h \in Handles, g \in Handles, via \in CopyVias(kind) : Nest(h, g, via)
   \/ \E h \in Handles, via \in DropVias(kind) : Drop(h, via)
   \/ \E h \in Handles, g \in Handles : Move(h, g) \/ Clone(h, g)
-  \/ \E h \in Handles, via \in {"vptr", "reserve"} : Unshare(h, via)
+  \/ \E h \in Handles, via \in UnshareVias : Unshare(h, via)
+  \/ \E h \in Handles : NotifyAdd(h)
+  \/ \E o \in Objs : NotifyClear(o)
+  \/ NotifyFini
   \/ \E h \in Handles, o \in Objs : Adopt(h, o)
   \/ \E o \in Objs : RawRef(o) \/ RawUnref(o) \/ Defer(o, 0) \/ Defer(o, 1)
   \/ \E o \in Objs, msg \in {0, 1}, accept \in {0, 1} : Undefer(o, msg, accept)
